@@ -215,6 +215,9 @@ Case(c) ==
         wn     |-> c.wn, sharp |-> c.sharp,
         Hs     |-> [f \in 1..NFrames(c) |-> FrameH(c, f)],
         tys    |-> [f \in 1..NFrames(c) |-> TypesAt(c, f)],
+        \* timestep labels of the frames: `frames` is a SEQUENCE - every frame counts once in the average,
+        \* whatever its label (labels may repeat: independent samples all dumped as step 0, reset_timestep)
+        ts     |-> IF "ts" \in DOMAIN c THEN c.ts ELSE [f \in 1..NFrames(c) |-> f - 1],
         nbins  |-> nb,
         nbins_on_integer |-> NBinsOnInteger(c),
         dyadic_scale |-> IsPow2(c.S),
